@@ -27,6 +27,12 @@ static void c08_spin(void);
 #undef SPINLOCK_BODY
 #define SPINLOCK_BODY() c08_spin()
 
+static __thread int         spin_armed = 0;
+static __thread long        spin_count = 0, lock_count = 0;
+static __thread sigjmp_buf  spin_jb;
+static long                 spin_limit = 400, lock_limit = 20000;
+static volatile int         stress_done = 0;
+
 /* lock discipline (m1): the three trylock macros are wrapped (the originals are captured in functions first, so the
  * working tree's own lock implementation is what runs); after every command a queue whose content or counters
  * changed without its lock having been taken, or whose lock/unlock events do not balance, is reported */
@@ -42,7 +48,14 @@ static void c08_note(void *x, int unlock)
     if (!c08_track) return;
     for (int i = 0; i < C08_MAXQ; i++) if (c08_lk_ptr[i] == x) { if (unlock) c08_ul_n[i]++; else c08_lk_n[i]++; return; }
 }
-static inline void c08_lock(QTHREAD_TRYLOCK_TYPE *x) { c08_orig_lock(x); c08_note(x, 0); }
+static inline void c08_lock(QTHREAD_TRYLOCK_TYPE *x)
+{
+    /* m1: a call that keeps polling its queue under the lock without ever getting a task (only the McCoy task is queued and
+     * the caller is not worker 0) is reported as SPIN; the escape happens before the lock is requested, no lock is held */
+    if (spin_armed == 1 && ++lock_count > lock_limit) { spin_armed = 0; siglongjmp(spin_jb, 1); }
+    c08_orig_lock(x);
+    c08_note(x, 0);
+}
 static inline void c08_unlock(QTHREAD_TRYLOCK_TYPE *x) { c08_note(x, 1); c08_orig_unlock(x); }
 static inline int  c08_try(QTHREAD_TRYLOCK_TYPE *x) { int r = c08_orig_try(x); if (r) c08_note(x, 0); return r; }
 #undef QTHREAD_TRYLOCK_LOCK
@@ -53,11 +66,6 @@ static inline int  c08_try(QTHREAD_TRYLOCK_TYPE *x) { int r = c08_orig_try(x); i
 
 #include "threadqueues/sherwood_threadqueues.c"
 
-static __thread int         spin_armed = 0;
-static __thread long        spin_count = 0;
-static __thread sigjmp_buf  spin_jb;
-static long                 spin_limit = 400;
-static volatile int         stress_done = 0;
 
 static void c08_spin(void)
 {
@@ -207,10 +215,10 @@ static int mode_m1(void)
             if (a < 0 || a >= FN || b < 0 || b >= FW) { printf("G |"); print_audit(); continue; }
             qt_threadqueue_t *q      = fsh[a].ready;
             long              packed = b + a * FW;
-            int               allmc  = (q->head != NULL);
+            int               allmc  = (q->head != NULL && q->head != q->tail);      /* two or more nodes, all McCoy */
             for (qt_threadqueue_node_t *n = q->head; n; n = n->next)
                 if (!(n->value->flags & QTHREAD_REAL_MCCOY)) allmc = 0;
-            /* the three divergences that have no spin point in the code are recognised up front */
+            /* the divergences that have no spin point and no lock request in the code are recognised up front */
             if (packed != 0 && allmc) {
                 printf("G LIVE |");
             } else if (q->head == NULL && fsh[a].stealing == 2 && packed == 0) {
@@ -220,7 +228,7 @@ static int mode_m1(void)
             } else {
                 qthread_t *volatile t = NULL;
                 TLS_SET(shepherd_structs, &fsh[a].workers[b]);
-                spin_count = 0;
+                spin_count = 0; lock_count = 0;
                 if (sigsetjmp(spin_jb, 0) == 0) {
                     spin_armed = 1;
                     t          = qt_scheduler_get_thread(q, NULL, (uint_fast8_t)d);
@@ -248,7 +256,7 @@ static int mode_m1(void)
                 int nm = (m[0] == '-') ? 0 : (int)strlen(m);
                 for (int i = 0; i < nm && i < FN; i++) if (m[i] == '1') { QTHREAD_TRYLOCK_LOCK(&fsh[i].ready->qlock); }
                 qt_threadqueue_node_t *volatile first = NULL;
-                spin_count = 0;
+                spin_count = 0; lock_count = 0;
                 if (sigsetjmp(spin_jb, 0) == 0) {
                     spin_armed = 1;
                     first      = qthread_steal(&fsh[a]);
